@@ -1060,10 +1060,5 @@ def r18_7(chk: Check) -> None:
 
 def rules(chk: Check) -> None:
     chk.src.cls(IF)
-    r18_1(chk)
-    r18_2(chk)
-    r18_3(chk)
-    r18_4(chk)
-    r18_5(chk)
-    r18_6(chk)
-    r18_7(chk)
+    for grp in (r18_1, r18_2, r18_3, r18_4, r18_5, r18_6, r18_7):
+        chk.stage(grp, chk)
